@@ -1024,7 +1024,7 @@ class VM:
 
     def iter_values(self, recv, keys_for_records):
         if isinstance(recv, list):
-            return list(recv)
+            return recv
         if isinstance(recv, str):
             return list(recv)
         if isinstance(recv, dict):
@@ -1034,7 +1034,14 @@ class VM:
     def _loop_over(self, unit, row, frame, scope, items):
         name = row.get("name")
         first = True
-        for it in items:
+
+        def live(seq):
+            # a list is iterated live (elements assigned during the loop are seen), as Python/JS do
+            i = 0
+            while i < len(seq):
+                yield seq[i]
+                i += 1
+        for it in (live(items) if isinstance(items, list) else items):
             if not first:
                 self.steps += 1
                 if self.steps > self.budget:
